@@ -97,18 +97,21 @@ def c01(run):
 # ------------------------------------------------------------------------------------- C02
 def c02(run):
     out = []
-    obj = R.make_objective(run.spec)
+    objs = [R.make_objective(run.spec, l) for l in range(len(run.spec["levels"]))]
     mx = run.spec["maximize"]
     sentinel = -np.inf if mx else np.inf
     cutoff = run.spec.get("cutoff")
     exhausted = cutoff is not None and any(len(r.calls) >= cutoff for r in run.objs["recs"])
     last = run.snaps[-1]
     for d in last["demes"]:
-        items = [(x, f, "history") for g in d["hist"] for x, f in g]
+        # a local deme's generation 0 is the seed object itself (the parent's individual)
+        items = [(x, f, "sprout seed" if (d["cls"] == "LocalDeme" and gi == 0) else "history") for gi, g in enumerate(d["hist"]) for x, f in g]
         if d["seed"] is not None:
             items.append((d["seed"][0], d["seed"][1], "sprout seed"))
         for x, f, what in items:
-            tv = obj(np.array(x))
+            # a sprout seed was evaluated by its parent's level, everything else by the deme's own
+            lvl = d["level"] - 1 if what == "sprout seed" else d["level"]
+            tv = objs[lvl](np.array(x))
             if f == tv:
                 continue
             if f == sentinel and exhausted:
@@ -127,8 +130,8 @@ def c02(run):
                 seen.setdefault(key, (dg, k))
     t = run.tree
     bi = t.best_individual
-    if bi is not None and np.isfinite(bi.fitness) and obj(np.array(bi.genome)) != bi.fitness:
-        out.append(V("C02/best-individual-fitness-wrong", f"tree.best_individual genome {list(bi.genome)} fitness {bi.fitness}, objective gives {obj(np.array(bi.genome))}"))
+    if bi is not None and np.isfinite(bi.fitness) and not any(o(np.array(bi.genome)) == bi.fitness for o in objs):
+        out.append(V("C02/best-individual-fitness-wrong", f"tree.best_individual genome {list(bi.genome)} fitness {bi.fitness}, objective gives {objs[0](np.array(bi.genome))}"))
     return out
 
 
@@ -274,7 +277,7 @@ def c06(run):
                     reasons.append("one-shot")
                 if r["active"] and reasons and not (cls == "CMADeme" and reasons == ["cma-stop"] and r.get("cma_stop") is None):
                     out.append(V("C06/still-active-although-stop-reason", f"metaepoch {s['n']}: deme {did} ({cls}) is still active although {reasons} held at the end of its metaepoch"))
-                if not r["active"] and not reasons and cls in ("EADeme", "DEDeme", "SHADEDeme", "LHSDeme", "SobolDeme", "CMADeme"):
+                if not r["active"] and not reasons and cls in ("EADeme", "DEDeme", "SHADEDeme", "LHSDeme", "SobolDeme", "CMADeme", "UserEADeme", "UserDEDeme"):
                     if not (cls == "CMADeme" and r.get("cma_stop") is None):
                         out.append(V("C06/stopped-without-reason", f"metaepoch {s['n']}: deme {did} ({cls}) became inactive although neither its local nor the global stop condition held nor its engine stopped"))
         for did, b in post.items():
@@ -304,7 +307,7 @@ def c07(run):
     out = []
     spec = run.spec
     nlev = len(spec["levels"])
-    cls_of = {"sea": "EADeme", "seax": "EADeme", "ga": "EADeme", "adapt": "EADeme", "mwea": "EADeme", "de": "DEDeme", "ded": "DEDeme", "shade": "SHADEDeme", "cma": "CMADeme", "cmaw": "CMADeme", "cmas": "CMADeme", "local": "LocalDeme", "lhs": "LHSDeme", "sobol": "SobolDeme"}
+    cls_of = R.CLASS_OF
     for s in run.snaps:
         demes = {d["id"]: d for d in s["demes"]}
         ids = [d["id"] for d in s["demes"]]
